@@ -233,6 +233,11 @@ Hypothesis Einj : forall u v, P u -> P v -> E u v -> u = v.
 Fixpoint allP (l : list (cutV * A)) : Prop :=
   match l with [] => True | (_, a) :: l' => P a /\ allP l' end.
 
+Lemma allP_in (l : list (cutV * A)) : (forall a, In a (map snd l) -> P a) -> allP l.
+Proof.
+  induction l as [|[c a] l IH]; cbn [allP map snd]; [intros; exact I|]. intros Hl. split; [apply Hl; left; reflexivity|]. apply IH. intros a' Ia. apply Hl; right; exact Ia.
+Qed.
+
 (** density of the admissible values relative to a set of cuts *)
 Record dense_on (C : list cutV) : Prop := {
   d_between : forall c c', In c C -> In c' C -> cut_cmp c c' = Lt ->
